@@ -916,6 +916,7 @@ fn gen_file_program(rng: &mut Rng, exists: &mut BTreeSet<String>) -> Scenario {
     let violate = |rng: &mut Rng| rng.chance(1, 8);
     let nops = 3 + rng.below(20);
     let mut random_open: Option<i32> = None;
+    let second_view = rng.chance(1, 2);
     let random_len: i32 = *rng.pick(&[8, 8, 10, 12]);
     let mut put_records: BTreeSet<i32> = BTreeSet::new();
     for _ in 0..nops {
@@ -1180,6 +1181,14 @@ fn gen_file_program(rng: &mut Rng, exists: &mut BTreeSet<String>) -> Scenario {
                         handle: 3,
                         fields: vec![(4, "FA$".into()), (4, "FB$".into())],
                     }));
+                    if second_view {
+                        // a second FIELD statement on the handle: another view of the same
+                        // record buffer, mapped from its first byte as well
+                        main.push(ids.st(StmtKind::Field {
+                            handle: 3,
+                            fields: vec![(2, "FC$".into()), (5, "FD$".into())],
+                        }));
+                    }
                     abs.open.insert(3, (Mode::Random, "R.DAT".into()));
                     random_open = Some(3);
                 }
@@ -1204,19 +1213,30 @@ fn gen_file_program(rng: &mut Rng, exists: &mut BTreeSet<String>) -> Scenario {
                         let recs: Vec<i32> = put_records.iter().cloned().collect();
                         let rec = *rng.pick(&recs);
                         main.push(ids.st(StmtKind::Get { handle: 3, rec }));
+                        let mut items = vec![
+                            PItem::E(Expr::Str("R[".into())),
+                            PItem::Semi,
+                            PItem::E(Expr::SVar("FA$".into())),
+                            PItem::Semi,
+                            PItem::E(Expr::Str("][".into())),
+                            PItem::Semi,
+                            PItem::E(Expr::SVar("FB$".into())),
+                            PItem::Semi,
+                            PItem::E(Expr::Str("]".into())),
+                        ];
+                        if second_view {
+                            for v in ["FC$", "FD$"] {
+                                items.push(PItem::Semi);
+                                items.push(PItem::E(Expr::Str("(".into())));
+                                items.push(PItem::Semi);
+                                items.push(PItem::E(Expr::SVar(v.into())));
+                                items.push(PItem::Semi);
+                                items.push(PItem::E(Expr::Str(")".into())));
+                            }
+                        }
                         main.push(ids.st(StmtKind::Print {
                             dev: Dev::Screen,
-                            items: vec![
-                                PItem::E(Expr::Str("R[".into())),
-                                PItem::Semi,
-                                PItem::E(Expr::SVar("FA$".into())),
-                                PItem::Semi,
-                                PItem::E(Expr::Str("][".into())),
-                                PItem::Semi,
-                                PItem::E(Expr::SVar("FB$".into())),
-                                PItem::Semi,
-                                PItem::E(Expr::Str("]".into())),
-                            ],
+                            items,
                             using: None,
                         }));
                     }
